@@ -15,13 +15,13 @@
 (* scenario, so one finding never hides another.  The whole file is always *)
 (* consumed (Accepted only guards against malformed traces).               *)
 (***************************************************************************)
-EXTENDS Clone, Json, IOUtils
+EXTENDS Clone, ArchiveFormat, Json, IOUtils
 
 Rec == ndJsonDeserialize(IOEnv.TRACE)
 MaxVerdicts == 40
 
-VARIABLES l, provided, requested, faulted, skipping, verdicts, nverdicts, nscen, nok
-tvars == <<l, provided, requested, faulted, skipping, verdicts, nverdicts, nscen, nok>>
+VARIABLES l, provided, requested, faulted, skipping, verdicts, nverdicts, nscen, nok, expect
+tvars == <<l, provided, requested, faulted, skipping, verdicts, nverdicts, nscen, nok, expect>>
 \* Clone's variables used here: sc, out, scan, rem, written, fetched (as "requested ids"), run
 \* unused Clone variables are kept constant
 unused == <<mem, plan, cur, seedpos, fetch, phase, bad, fetched>>
@@ -42,7 +42,7 @@ TInit ==
   /\ l = 1 /\ sc = [sz |-> <<>>, src |-> <<>>, prior |-> <<>>, seeds |-> <<>>, inplace |-> FALSE, arch |-> <<>>, hdr |-> 0]
   /\ out = <<>> /\ scan = {} /\ rem = <<>> /\ written = {} /\ run = 1
   /\ provided = {} /\ requested = {} /\ faulted = FALSE /\ skipping = TRUE
-  /\ verdicts = <<>> /\ nverdicts = 0 /\ nscen = 0 /\ nok = 0
+  /\ verdicts = <<>> /\ nverdicts = 0 /\ nscen = 0 /\ nok = 0 /\ expect = <<>>
   /\ mem = <<>> /\ plan = <<>> /\ cur = NoCur /\ seedpos = <<1, 1>> /\ fetch = <<>> /\ phase = "trace" /\ bad = "" /\ fetched = {}
 
 AdmissibleScan(r, f, S) == S \subseteq IntactCopies(r, f) /\ NonOverlapping(r, S)
@@ -54,16 +54,18 @@ Scenario ==
                arch |-> Ev.arch, hdr |-> Ev.hdr]
          scn == IF Ev.inplace THEN Tuples(Ev.scan) ELSE {}
          f == PriorFile(r) IN
+     /\ expect' = Ev.expect
      /\ sc' = r /\ out' = f /\ scan' = scn
      /\ rem' = Stripped(r, scn)
-     /\ IF AdmissibleScan(r, f, scn) THEN skipping' = FALSE /\ UNCHANGED <<verdicts, nverdicts>>
-        ELSE Flag("HARNESS: scan of the scenario is not a set of disjoint intact copies")
+     /\ IF ~AdmissibleScan(r, f, scn) THEN Flag("HARNESS: scan of the scenario is not a set of disjoint intact copies")
+        ELSE IF ~Conforming(Ev.rec) THEN Flag("HARNESS: the encoded archive is not format-conforming (ArchiveFormat.Conforming)")
+        ELSE skipping' = FALSE /\ UNCHANGED <<verdicts, nverdicts>>
   /\ written' = {} /\ run' = 1 /\ provided' = {} /\ requested' = {} /\ faulted' = FALSE /\ nscen' = Ev.n
   /\ UNCHANGED <<unused, nok>>
 
 Skip ==
   /\ l <= Len(Rec) /\ skipping /\ Ev.ev # "scenario" /\ l' = l + 1
-  /\ UNCHANGED <<sc, out, scan, rem, written, run, provided, requested, faulted, skipping, verdicts, nverdicts, nscen, nok, unused>>
+  /\ UNCHANGED <<sc, out, scan, rem, written, run, provided, requested, faulted, skipping, verdicts, nverdicts, nscen, nok, expect, unused>>
 
 Step(e) == l <= Len(Rec) /\ ~skipping /\ Ev.ev = e /\ l' = l + 1
 
@@ -71,21 +73,35 @@ Step(e) == l <= Len(Rec) /\ ~skipping /\ Ev.ev = e /\ l' = l + 1
 Marker ==
   /\ \E e \in {"opened", "seed", "fetch_begin", "fetched"} : Step(e)
   /\ NoFlag
-  /\ UNCHANGED <<sc, out, scan, rem, written, run, provided, requested, faulted, nscen, nok, unused>>
+  /\ UNCHANGED <<sc, out, scan, rem, written, run, provided, requested, faulted, nscen, nok, expect, unused>>
+
+\* ---- what the reader reports about the archive (C17: opened, reported ...) against what the encoder put in
+AccessorsEv ==
+  /\ Step("accessors")
+  /\ IF Ev.v = expect THEN NoFlag ELSE Flag("C17 REPORT: the reader reports other values than the archive records")
+  /\ UNCHANGED <<sc, out, scan, rem, written, run, provided, requested, faulted, nscen, nok, expect, unused>>
+\* ---- the same archive through the real CLI (bita clone into a new file, bita info)
+CliEv ==
+  /\ Step("cli")
+  /\ IF Ev.clone_exit # 0 THEN Flag("C17 CLI: bita clone failed on a format-conforming archive")
+     ELSE IF ~Ev.out_eq_src THEN Flag("C17 CLI: bita clone produced other bytes than the source the archive describes")
+     ELSE IF Ev.info_exit # 0 THEN Flag("C17 CLI: bita info failed on a format-conforming archive")
+     ELSE NoFlag
+  /\ UNCHANGED <<sc, out, scan, rem, written, run, provided, requested, faulted, nscen, nok, expect, unused>>
 
 \* ---- header reads (C06: apart from chunk data only the header region is read)
 ReadAtEv ==
   /\ Step("read_at")
   /\ IF Ev.off + Ev.size <= sc.hdr THEN NoFlag
      ELSE Flag("FETCH: read_at outside the header region")
-  /\ UNCHANGED <<sc, out, scan, rem, written, run, provided, requested, faulted, nscen, nok, unused>>
+  /\ UNCHANGED <<sc, out, scan, rem, written, run, provided, requested, faulted, nscen, nok, expect, unused>>
 
 \* ---- a read of the output: must agree with the model's file (keeps harness and model in sync)
 ReadEv ==
   /\ Step("read")
   /\ IF Ev.off = -1 \/ ReadAt(out, Ev.off, Len(Ev.cells)) = Cells(Ev.cells) THEN NoFlag
      ELSE Flag("HARNESS: read projection differs from the model's file")
-  /\ UNCHANGED <<sc, out, scan, rem, written, run, provided, requested, faulted, nscen, nok, unused>>
+  /\ UNCHANGED <<sc, out, scan, rem, written, run, provided, requested, faulted, nscen, nok, expect, unused>>
 
 \* ---- a write to the output: Clone's WriteRule (C13), then Clone's WriteOut effect
 WriteEv ==
@@ -103,7 +119,7 @@ WriteEv ==
                /\ out' = WriteAt(out, Ev.off, Cells(Ev.after))
                /\ faulted' = TRUE
                /\ NoFlag /\ UNCHANGED <<rem, written>>
-  /\ UNCHANGED <<sc, scan, run, provided, requested, nscen, nok, unused>>
+  /\ UNCHANGED <<sc, scan, run, provided, requested, nscen, nok, expect, unused>>
 
 \* ---- end of in-place reordering: every reusable chunk has been placed (C03 / C06)
 ReorderedEv ==
@@ -111,14 +127,14 @@ ReorderedEv ==
   /\ IF Ev.res = "ok" /\ \E id \in ReusableIds(sc, scan) : rem[id] # {}
      THEN Flag("LOST: reusable chunk not placed by in-place reordering")
      ELSE NoFlag
-  /\ UNCHANGED <<sc, out, scan, rem, written, run, provided, requested, faulted, nscen, nok, unused>>
+  /\ UNCHANGED <<sc, out, scan, rem, written, run, provided, requested, faulted, nscen, nok, expect, unused>>
 
 \* ---- a chunk of a seed stream is offered to the output
 SeedChunkEv ==
   /\ Step("seed_chunk")
   /\ provided' = provided \cup {Ev.id}
   /\ NoFlag
-  /\ UNCHANGED <<sc, out, scan, rem, written, run, requested, faulted, nscen, nok, unused>>
+  /\ UNCHANGED <<sc, out, scan, rem, written, run, requested, faulted, nscen, nok, expect, unused>>
 
 \* ---- chunk data requested from the archive (C06)
 ArchId(rg) == IF \E i \in 1..Len(sc.arch) : sc.arch[i][2] = rg[1] /\ sc.arch[i][3] = rg[2]
@@ -135,7 +151,7 @@ ReadChunksEv ==
      ELSE IF \E id \in ids : id \in provided THEN Flag("FETCH: chunk found in a seed was requested from the archive") /\ UNCHANGED requested
      ELSE IF \E id \in ids : rem[id] = {} THEN Flag("FETCH: chunk requested although nothing is left to write for it") /\ UNCHANGED requested
      ELSE requested' = requested \cup ids /\ NoFlag
-  /\ UNCHANGED <<sc, out, scan, rem, written, run, provided, faulted, nscen, nok, unused>>
+  /\ UNCHANGED <<sc, out, scan, rem, written, run, provided, faulted, nscen, nok, expect, unused>>
 
 \* ---- fault mode: the interrupted run ends (C05: a run whose write failed never reports success)
 RunEndEv ==
@@ -144,7 +160,7 @@ RunEndEv ==
      ELSE IF Ev.res = "panic" THEN Flag("PANIC: clone panicked")
      ELSE IF ~faulted /\ Ev.res # "ok" THEN Flag("FAIL: clone failed although the archive is readable and no fault was injected")
      ELSE NoFlag
-  /\ UNCHANGED <<sc, out, scan, rem, written, run, provided, requested, faulted, nscen, nok, unused>>
+  /\ UNCHANGED <<sc, out, scan, rem, written, run, provided, requested, faulted, nscen, nok, expect, unused>>
 
 \* ---- fault mode: re-run in place on what is on disk (Restart + Start of Clone.tla)
 RestartEv ==
@@ -154,7 +170,7 @@ RestartEv ==
      /\ IF AdmissibleScan(sc, out, scn) THEN NoFlag
         ELSE Flag("HARNESS: restart scan is not a set of disjoint intact copies of the model's file")
   /\ written' = {} /\ run' = run + 1 /\ provided' = {} /\ requested' = {} /\ faulted' = FALSE
-  /\ UNCHANGED <<sc, out, nscen, nok, unused>>
+  /\ UNCHANGED <<sc, out, nscen, nok, expect, unused>>
 
 \* ---- end of the (last) run
 DoneEv ==
@@ -167,9 +183,9 @@ DoneEv ==
      ELSE IF requested # {id \in IdsOf(sc) : TargetOffs(sc, id) # {}} \ (ReusableIds(sc, scan) \cup provided)
           THEN Flag("FETCH: set of chunks requested from the archive is not exactly the missing ones") /\ UNCHANGED nok
      ELSE /\ skipping' = TRUE /\ UNCHANGED <<verdicts, nverdicts>> /\ nok' = nok + 1
-  /\ UNCHANGED <<sc, out, scan, rem, written, run, provided, requested, faulted, nscen, unused>>
+  /\ UNCHANGED <<sc, out, scan, rem, written, run, provided, requested, faulted, nscen, expect, unused>>
 
-TNext == Scenario \/ Skip \/ Marker \/ ReadAtEv \/ ReadEv \/ WriteEv \/ ReorderedEv \/ SeedChunkEv \/ ReadChunksEv
+TNext == Scenario \/ Skip \/ Marker \/ AccessorsEv \/ CliEv \/ ReadAtEv \/ ReadEv \/ WriteEv \/ ReorderedEv \/ SeedChunkEv \/ ReadChunksEv
          \/ RunEndEv \/ RestartEv \/ DoneEv
 TSpec == TInit /\ [][TNext]_<<vars, tvars>>
 
